@@ -225,3 +225,34 @@ Proof.
   - exact (Hcond_zero_when_determined [0; 0; 1]%Z [5; 5; 7]%Z eq_refl D).
   - split; intros x y H; lia.
 Qed.
+
+(* ------------------------------------------------------------------------------------------
+   Rounding error of the binary64 instance (the very definitions the correspondence executes against
+   the Rust code), proved through Flocq's PrimFloat bridge.  FR x is the real value of a float,
+   u64 = 2^-53, eta64 = 2^-1075 (Base/FloatError.v); the only no-overflow hypothesis is that the
+   RESULT is finite.  MAE and MSE are C17's Manhattan / squared-Euclidean loops divided by n.
+   ------------------------------------------------------------------------------------------ *)
+From Coq Require Import Floats.
+From SC Require Base.FloatUtil Base.FloatError C17.Spec C17.ProofsFloat C15.ProofsFloat.
+
+Theorem C15_mae_float_error : forall (yt yp : list PrimFloat.float) (m : PrimFloat.float),
+  mean_absolute_error FOps yt yp = Some m -> FloatError.ffin m -> (Z.of_nat (length yt) < 2 ^ 53)%Z ->
+  let n := length yt in
+  let D := C17.Spec.sigma n (fun i => Rabs (C17.Spec.comp (C17.ProofsFloat.RV yt) i - C17.Spec.comp (C17.ProofsFloat.RV yp) i)) in
+  mean_absolute_error ROps (C17.ProofsFloat.RV yt) (C17.ProofsFloat.RV yp) = Some (D / INR n)%R /\ (0 < n)%nat /\ (0 <= D / INR n)%R /\
+  (Rabs (FloatError.FR m - D / INR n) <= ((1 + FloatError.u64) ^ (n + 1) - 1) * (D / INR n) + FloatError.eta64)%R.
+Proof. exact C15.ProofsFloat.mae_float_error. Qed.
+
+Theorem C15_mse_float_error : forall (yt yp : list PrimFloat.float) (m : PrimFloat.float),
+  mean_squared_error FOps yt yp = Some m -> FloatError.ffin m -> (Z.of_nat (length yt) < 2 ^ 53)%Z ->
+  let n := length yt in
+  let D := C17.Spec.sigma n (fun i => ((C17.Spec.comp (C17.ProofsFloat.RV yt) i - C17.Spec.comp (C17.ProofsFloat.RV yp) i) *
+                                       (C17.Spec.comp (C17.ProofsFloat.RV yt) i - C17.Spec.comp (C17.ProofsFloat.RV yp) i))%R) in
+  mean_squared_error ROps (C17.ProofsFloat.RV yt) (C17.ProofsFloat.RV yp) = Some (D / INR n)%R /\ (0 < n)%nat /\ (0 <= D / INR n)%R /\
+  (Rabs (FloatError.FR m - D / INR n) <= ((1 + FloatError.u64) ^ (n + 3) - 1) * (D / INR n + FloatError.eta64) + 2 * FloatError.eta64)%R.
+Proof. exact C15.ProofsFloat.mse_float_error. Qed.
+
+Example C15_float_error_instance :
+  exists m, mean_absolute_error FOps [0x1.999999999999ap-4; 0x1.999999999999ap-3]%float [0x1.3333333333333p-2; 0x1.999999999999ap-4]%float = Some m
+            /\ FloatError.ffin m.
+Proof. eexists. split; [vm_compute; reflexivity | vm_compute; reflexivity]. Qed.
